@@ -537,7 +537,54 @@ Fixpoint sforeach_loop (fuel : nat) (f : nat -> Z -> option Z) (k : nat) (i : si
 Definition sforeach (fuel : nat) (f : nat -> Z -> option Z) (i : sit) : option (list Z * option Z) :=
   if is_snil i then Some ([], None) else sforeach_loop fuel f 0%nat i.
 
+(* the same loops, also answering WHERE the iterator stands when ForEach returns: after an error, on the element whose
+   callback failed (no Next() was asked of it); after the end, on the exhausted iterator *)
+Fixpoint pforeach_loop_st (fuel : nat) (f : nat -> Z * Z -> option Z) (k : nat) (i : pit)
+  : option (list (Z * Z) * option Z * pit) :=
+  match fuel with O => None | S n =>
+  let e := kv i in
+  match f k e with
+  | Some err => Some ([e], Some err, i)
+  | None =>
+      match pnext n i with
+      | None => None
+      | Some (false, i') => Some ([e], None, i')
+      | Some (true, i') =>
+          match pforeach_loop_st n f (S k) i' with
+          | None => None
+          | Some (vs, o, j) => Some (e :: vs, o, j)
+          end
+      end
+  end end.
+Fixpoint sforeach_loop_st (fuel : nat) (f : nat -> Z -> option Z) (k : nat) (i : sit)
+  : option (list Z * option Z * sit) :=
+  match fuel with O => None | S n =>
+  let e := svalue i in
+  match f k e with
+  | Some err => Some ([e], Some err, i)
+  | None =>
+      match snext n i with
+      | None => None
+      | Some (false, i') => Some ([e], None, i')
+      | Some (true, i') =>
+          match sforeach_loop_st n f (S k) i' with
+          | None => None
+          | Some (vs, o, j) => Some (e :: vs, o, j)
+          end
+      end
+  end end.
+
 (* top level: environment (0, 0) *)
+Definition prun_foreach_st (fuel : nat) (f : nat -> Z * Z -> option Z) (t : pe) : option (list (Z * Z) * option Z * pit) :=
+  match pbuild fuel 0 0 t with
+  | Some i => if is_pnil i then Some ([], None, i) else pforeach_loop_st fuel f 0%nat i
+  | None => None
+  end.
+Definition srun_foreach_st (fuel : nat) (f : nat -> Z -> option Z) (t : se) : option (list Z * option Z * sit) :=
+  match sbuild fuel 0 0 t with
+  | Some i => if is_snil i then Some ([], None, i) else sforeach_loop_st fuel f 0%nat i
+  | None => None
+  end.
 Definition prun (fuel : nat) (t : pe) : option (list (Z * Z)) :=
   match pbuild fuel 0 0 t with Some i => pdrain fuel i | None => None end.
 Definition srun (fuel : nat) (t : se) : option (list Z) :=
